@@ -55,6 +55,8 @@ def write_replay(pid, kind, payload):
 
 
 def do_replay(pid, path):
+    if not os.path.isabs(path):
+        path = os.path.join(core.VERIF, path)
     data = json.load(open(path))
     lines = data.get("lines") or ([data["line"]] if "line" in data else [])
     seed = data.get("seed", 1)
